@@ -1518,7 +1518,8 @@ def merge_nested_comprehensions(source: str) -> str:
 
                 tf = RenameTransformer(target_name_inner, comprehension.target.id)
 
-                new_generators.extend(tf.visit(comprehension.iter).generators)
+                # The transformer modifies nodes in place, so it gets a copy of the cached tree
+                new_generators.extend(tf.visit(copy.deepcopy(comprehension.iter)).generators)
 
             else:
                 new_generators.append(comprehension)
